@@ -6,7 +6,8 @@ PROP = "C02"
 RULE = ("random request histories biased to same-byte rewrites, re-serialisations, changes and reverts; at every audit each member's ETag is collected from PUT/POST "
         "response, GET, HEAD, PROPFIND getetag, multiget, query (match-all), sync-collection (empty and incremental token) and must agree; per path the relation "
         "ETag <-> sha256(served bytes) must be a bijection over the whole history; store-API histories check import_one's etag vs iter_with_etag and the same bijection "
-        "(vdir md5, git blob ids); distinct = distinct (backend, path, etag) observations")
+        "(vdir md5, git blob ids); a concurrent phase (real CLI server, read-delay injection) issues GETs while another client overwrites the same members with uniquely "
+        "tokened bodies: ETag header and body of one response must belong to one acknowledged write; distinct = distinct (backend, path, etag) observations")
 WEIGHTS = {"put_same": 8, "put_reser": 5, "put_change": 8, "put_revert": 6, "put_new": 8, "delete": 3, "proppatch": 2, "restart": 0.7, "put_invalid": 1, "read": 2}
 
 
@@ -15,6 +16,9 @@ def run_shard(args):
     if args.get("mode") == "store":
         from vf import storedrv
         return storedrv.run(args, res, PROP)
+    if args.get("mode") == "concurrent":
+        from vf.props import c17
+        return c17.run_concurrent(args)
     return histrun.run_history(args, [monitors.C02Monitor], res, weights=WEIGHTS)
 
 
@@ -22,6 +26,10 @@ def check(tier, seed, t0):
     shards = _hist.plan(tier, seed, quick=(12, 90, 1), thorough=(14, 150, 6))
     for i, b in enumerate(["vdir", "bare-mem", "bare-disk", "tree"]):
         shards.append({"mode": "store", "backend": b, "seed": seed * 100 + 60 + i, "steps": 200 if tier == "quick" else 1500, "histories": 2 if tier == "quick" else 6})
+    for i in range(4 if tier == "quick" else 12):
+        # GETs concurrent with overwrites (real CLI server, read-delay injection): the ETag header and the body of one response must belong to one write
+        shards.append({"mode": "concurrent", "judge": "get", "backend": ["tree", "bare"][i % 2], "kind": ["calendar", "addressbook"][(i // 2) % 2], "seed": seed * 1000 + 800 + i,
+                       "seconds": 6 if tier == "quick" else 30, "delay_ms": [4, 8][(i // 2) % 2]})
     merged, failures = _hist.run("vf.props.c02", shards, tier)
     c = merged["counters"]
     k = 1 if tier == "quick" else 8
@@ -29,7 +37,8 @@ def check(tier, seed, t0):
               ("same-byte rewrites", c.get("op:put_same", 0), 50 * k), ("byte-changing rewrites", c.get("op:put_change", 0), 50 * k),
               ("reverts", c.get("op:put_revert", 0), 20 * k), ("re-serialisations", c.get("op:put_reser", 0), 10 * k),
               ("etag re-observed after other steps", c.get("etag_reobserved", 0), 500 * k), ("store-API etag observations", c.get("etag_observations", 0), 1000 * k),
-              ("restarts", c.get("restarts", 0), 3)]
+              ("restarts", c.get("restarts", 0), 3), ("(ETag, body) pairs of GETs concurrent with overwrites", c.get("concurrent_pairs_judged:get", 0), 300 * (1 if tier == "quick" else 6)),
+              ("overwrites during concurrent runs", c.get("concurrent_writes", 0), 100)]
     for v in monitors.C02Monitor.VIEWS:
         guards.append(("view " + v, c.get("view:" + v, 0), 100 * k))
     return common.finish(PROP, tier, seed, "exploration", merged, failures, RULE, t0, guards=guards,
@@ -47,7 +56,9 @@ def _replay(path):
     rp = json.load(open(path))
     cfg = rp["witness"]["config"]
     res = common.Result()
-    if cfg.get("mode") == "store":
+    if cfg.get("mode") == "concurrent":
+        res = run_shard(dict(cfg))
+    elif cfg.get("mode") == "store":
         from vf import storedrv
         storedrv.run({"backend": cfg["backend"], "seed": cfg["seed"] // 1000, "steps": cfg["steps"], "histories": cfg["seed"] % 1000 + 1}, res, PROP)
     else:
